@@ -181,6 +181,7 @@ def run_check(pid: str, tier: str, repo: str, rules: Callable[[Ctx], None], expl
                             "unresolved_repo_candidates": len(cg["unresolved"])} if cg else None),
             "samples": samples,
             "notes": ctx.notes if ctx else [],
+            "normalisation": ({k: v for k, v in ctx.prog.norm_stats.items() if k != "rejected"} | {"kept_as_rule_anchors": len([1 for r in ctx.prog.norm_stats.get("rejected", {}).values() if r.startswith("kept")])}) if ctx and getattr(ctx.prog, "norm_stats", None) else None,
             "trusted_base": trusted_base,
             "checker_cmd": f"./check {pid} --tier {tier}",
             "exhaustive": False,
